@@ -1,15 +1,18 @@
 """Tracing recipe for C12: the straight-line pieces of the iterative solvers other than `refract`
 (whose pieces come from tracer/recipes/c11.py: prologue, body, guard, epilogue).
 
-odak.raytracing.intersect_parametric (secant iteration)
-   g_sec_next/d0/e0/e1     propagate_parametric_intersection_error: next distances and errors
+odak.raytracing.intersect_parametric (secant iteration): ONE pass of its loop executed symbolically (ParametricCut)
+   g_sec_next/d0/e0/e1     the state after the pass: distances and errors (e1 = what the surface function answered)
+   g_sec_count             the counter after the pass
    g_sec_guard             the `while` condition            (`or` rewritten to a symbolic or)
-   g_sec_stop_k            the tests of the `if ...: return False, False` statements inside the loop
+   g_sec_stop              the disjunction of the conditions of the `if ...: return False, False` statements inside the loop
+                           (as a function of the counter BEFORE the pass)
+   g_kernel_point_k        the point at which the surface function was asked (so: which distance goes into the kernel)
+   g_sec2_*, g_sec_guard2, g_kernel_point2_* the same for a batch of two rays
    g_sphere_err, g_cyl_err intersection_kernel_for_parametric_surfaces with sphere_function / cylinder_function
-odak.learn.raytracing.intersect_w_sphere (fixed number of optimiser steps)
-   g_ts_test, g_ts_check   the residual `test` (distance before the last optimiser step) and the flag `check`
-                           (also a function of the distance after it)
-The shape of both functions around these pieces is checked structurally (`shape_*`).
+odak.learn.raytracing.intersect_w_sphere (fixed number of optimiser steps): executed symbolically around one optimiser step
+   g_ts_check              the flag as a function of the distance before (x) and after (y) the last optimiser step
+Local names are irrelevant in both: the roles are read off the data flow (ParametricCut, torch_sphere_pass).
 """
 import ast, os
 from tracer import shim
@@ -31,104 +34,255 @@ def _func(relpath, name):
     return path, src, fn, body
 
 
-def shape_parametric():
-    """intersect_parametric is  init; while G: [e1 := kernel(d1); (distance, error) := propagate(...); iter_no += 1;
-    if T1: return False, False; if T2: return False, False]; normal := ...; return distance[1], normal"""
-    path, src, fn, body = _func(NUMPY, 'intersect_parametric')
-    loops = [st for st in body if isinstance(st, (ast.While, ast.For))]
-    if len(loops) != 1 or not isinstance(loops[0], ast.While) or loops[0].orelse:
-        raise shim.TraceError('intersect_parametric: expected exactly one while loop')
-    w = loops[0]
-    kinds = [type(st).__name__ for st in w.body]
-    if kinds != ['Assign', 'Assign', 'AugAssign', 'If', 'If']:
-        raise shim.TraceError('intersect_parametric: loop body changed shape: %s' % kinds)
-    calls = [st.value.func.id for st in w.body[:2] if isinstance(st.value, ast.Call) and isinstance(st.value.func, ast.Name)]
-    if calls != ['intersection_kernel_for_parametric_surfaces', 'propagate_parametric_intersection_error']:
-        raise shim.TraceError('intersect_parametric: loop body calls %s' % calls)
-    aug = w.body[2]
-    if not (isinstance(aug.target, ast.Name) and aug.target.id == 'iter_no' and isinstance(aug.op, ast.Add) and ast.literal_eval(aug.value) == 1):
-        raise shim.TraceError('intersect_parametric: counter is not `iter_no += 1`')
-    for st in w.body[3:]:
-        if st.orelse or len(st.body) != 1 or not isinstance(st.body[0], ast.Return) or ast.unparse(st.body[0].value) != '(False, False)':
-            raise shim.TraceError('intersect_parametric: in-loop exit is not `return False, False`')
-    if any(isinstance(n, (ast.Break, ast.Continue)) for n in ast.walk(w)):
-        raise shim.TraceError('intersect_parametric: break/continue in the loop')
-    last = body[-1]
-    if not isinstance(last, ast.Return) or ast.unparse(last.value) != '(distance[1], normal)':
-        raise shim.TraceError('intersect_parametric: final return changed')
-    init = {}
-    for st in body[:body.index(w)]:
-        if isinstance(st, ast.Assign) and len(st.targets) == 1 and isinstance(st.targets[0], ast.Name):
-            init[st.targets[0].id] = ast.unparse(st.value)
-    params = {a.arg: ast.literal_eval(d) for a, d in zip(fn.args.args[-len(fn.args.defaults):], fn.args.defaults)}
-    return {'guard': ast.get_source_segment(src, w.test), 'stops': [ast.get_source_segment(src, st.test) for st in w.body[3:]],
-            'init': init, 'defaults': params, 'path': path}
+class _Exits(ast.NodeTransformer):
+    """inside the loop body: `if cond: return value` -> `__exits__.append((cond, value))` (cond with symbolic and/or/not)"""
+    def visit_If(s, node):
+        if node.orelse or len(node.body) != 1 or not isinstance(node.body[0], ast.Return):
+            raise shim.TraceError('intersect_parametric: an `if` in the loop that is not `if cond: return value`')
+        cond = _SymBool().visit(node.test)
+        val = node.body[0].value if node.body[0].value is not None else ast.Constant(None)
+        return ast.Expr(ast.Call(ast.Attribute(ast.Name('__exits__', ast.Load()), 'append', ast.Load()), [ast.Tuple([cond, val], ast.Load())], []))
 
 
-def shape_torch_sphere():
-    """intersect_w_sphere (PyTorch): one `for` over tqdm(range(number_of_steps)) / range(number_of_steps), no break"""
+def _targets(stmts):
+    """names assigned by the statements, including the bases of subscript targets (`error[1], point = ...`)"""
+    out = []
+    def tg(t):
+        if isinstance(t, ast.Name): out.append(t.id)
+        elif isinstance(t, (ast.Tuple, ast.List)): [tg(e) for e in t.elts]
+        elif isinstance(t, ast.Subscript) and isinstance(t.value, ast.Name): out.append(t.value.id)
+        elif isinstance(t, ast.Starred): tg(t.value)
+    for st in stmts:
+        for n in ast.walk(st):
+            if isinstance(n, ast.Assign): [tg(t) for t in n.targets]
+            elif isinstance(n, (ast.AugAssign, ast.AnnAssign)): tg(n.target)
+    return list(dict.fromkeys(out))
+
+
+class ParametricCut:
+    """The current `intersect_parametric`, executed symbolically for ONE pass of its loop.  Nothing depends on the names of
+    its locals or on how the statements are written: the prologue is run as it is (it builds the initial lists and the
+    counter), the roles are read off the data flow — the list whose element [1] is returned holds the distances, the
+    list read by the loop condition holds the errors, the integer is the counter — the loop state is replaced by
+    symbols, the surface function by a probe that records the point it is asked about and answers with the symbol
+    `e1`, and every `if ...: return value` inside the loop is recorded as an exit (condition, value)."""
+
+    def __init__(self):
+        path, src, fn, body = _func(NUMPY, 'intersect_parametric')
+        self.path, self.src, self.fn = path, src, fn
+        loops = [st for st in body if isinstance(st, (ast.While, ast.For))]
+        inner = [n for st in body for n in ast.walk(st)]
+        if len(loops) != 1 or not isinstance(loops[0], ast.While) or loops[0].orelse \
+                or any(isinstance(n, (ast.Break, ast.Continue, ast.Try, ast.With, ast.Raise, ast.Yield, ast.FunctionDef, ast.Lambda)) for n in inner) \
+                or any(isinstance(n, (ast.While, ast.For)) and n is not loops[0] for n in inner):
+            raise shim.TraceError('intersect_parametric: expected init; one while loop; epilogue')
+        self.loop = w = loops[0]
+        k = body.index(w)
+        self.pre, self.post = body[:k], body[k + 1:]
+        if not self.post or not isinstance(self.post[-1], ast.Return) or any(isinstance(n, ast.Return) for st in self.post[:-1] for n in ast.walk(st)):
+            raise shim.TraceError('intersect_parametric: the epilogue does not end in a single return')
+        ret = self.post[-1].value
+        if not (isinstance(ret, ast.Tuple) and len(ret.elts) == 2 and isinstance(ret.elts[0], ast.Subscript) and isinstance(ret.elts[0].value, ast.Name)
+                and ast.literal_eval(ret.elts[0].slice) == 1):
+            raise shim.TraceError('intersect_parametric: the function no longer returns (<distances>[1], normal)')
+        self.dist = ret.elts[0].value.id
+        self.params = [a.arg for a in fn.args.args]
+        self.defaults = {a.arg: ast.literal_eval(d) for a, d in zip(fn.args.args[-len(fn.args.defaults):], fn.args.defaults)}
+        self.guard_src = ast.get_source_segment(src, w.test)
+        self.state = _targets(w.body)
+
+    def _exec(self, stmts, ns):
+        import copy
+        mod = ast.Module(copy.deepcopy(stmts), [])
+        ast.fix_missing_locations(mod)
+        exec(compile(mod, self.path, 'exec'), ns)
+
+    def namespace(self):
+        ns = shim.base_namespace({'__and__': lambda x, y: shim.B.lift(x) & shim.B.lift(y), '__or__': lambda x, y: shim.B.lift(x) | shim.B.lift(y),
+                                  '__not__': lambda x: ~shim.B.lift(x)})
+        shim.load('odak/tools/vector.py', ['point_to_ray_distance'], ns)
+        shim.load('odak/raytracing/ray.py', ['propagate_a_ray'], ns)
+        shim.load('odak/raytracing/primitives.py', ['sphere_function', 'cylinder_function'], ns)
+        called = {n.func.id for n in ast.walk(self.fn) if isinstance(n, ast.Call) and isinstance(n.func, ast.Name)}
+        top = {n.name for n in ast.parse(self.src).body if isinstance(n, ast.FunctionDef)}
+        # helpers of the same module that the function (or these helpers) call
+        todo, seen = sorted(called & top), set()
+        tree = {n.name: n for n in ast.parse(self.src).body if isinstance(n, ast.FunctionDef)}
+        while todo:
+            f = todo.pop()
+            if f in seen or f == 'intersect_parametric': continue
+            seen.add(f)
+            todo += sorted({n.func.id for n in ast.walk(tree[f]) if isinstance(n, ast.Call) and isinstance(n.func, ast.Name)} & top)
+        seen.discard('get_triangle_normal')
+        shim.load(NUMPY, sorted(seen), ns)
+        return ns
+
+    def run(self, m):
+        """one pass for a batch of m rays (m = 1: scalars as in the first iterations of the code)"""
+        ns = self.namespace()
+        probe = {}
+        def surface(point, surf):
+            probe['point'] = point
+            return shim.wrap([shim.var('e1')]) if m == 1 else shim.sym('e1', (m,))
+        vals = {'ray': shim.sym('r', (m, 2, 3)), 'parametric_surface': shim.sym('s', (4,)), 'surface_function': surface,
+                'surface_normal_function': lambda point, surf: None, 'target_error': shim.var('tol'), 'iter_no_limit': shim.var('limit')}
+        for p_ in self.params:
+            if p_ not in vals: raise shim.TraceError('intersect_parametric has an unknown parameter %s' % p_)
+            ns[p_] = vals[p_]
+        self._exec(self.pre, ns)
+        init = {n: ns[n] for n in self.state if n in ns}
+        lists = [n for n, v in init.items() if isinstance(v, list) and len(v) == 2 and all(isinstance(x, (int, float)) and not isinstance(x, bool) for x in v)]
+        ints = [n for n, v in init.items() if isinstance(v, int) and not isinstance(v, bool)]
+        reads = [n.id for n in ast.walk(self.loop.test) if isinstance(n, ast.Name)]
+        errs = [n for n in lists if n != self.dist and n in reads]
+        if self.dist not in lists or len(errs) != 1 or len(ints) != 1:
+            raise shim.TraceError('intersect_parametric: cannot find the distance list, the error list and the counter among %s' % sorted(init))
+        err, cnt = errs[0], ints[0]
+        self.roles = {'distances': self.dist, 'errors': err, 'counter': cnt}
+        self.init = {'distances': init[self.dist], 'errors': init[err], 'counter': init[cnt]}
+        def vec(name):
+            return shim.var(name) if m == 1 else shim.sym(name, (m,))
+        ns[self.dist] = [vec('d0'), vec('d1')]; ns[err] = [vec('e0'), vec('e1_old')]; ns[cnt] = shim.var('iter_no')
+        import copy
+        guard = eval(compile(ast.fix_missing_locations(ast.Expression(_SymBool().visit(copy.deepcopy(self.loop.test)))), self.path, 'eval'), ns)
+        ns['__exits__'] = []
+        body = [_Exits().visit(copy.deepcopy(st)) if isinstance(st, ast.If) else st for st in self.loop.body]
+        if any(isinstance(n, ast.Return) for st in body for n in ast.walk(st)):
+            raise shim.TraceError('intersect_parametric: a return in the loop that is not `if cond: return value`')
+        self._exec(body, ns)
+        return {'guard': shim.B.lift(guard), 'dist': ns[self.dist], 'err': ns[err], 'count': ns[cnt], 'exits': ns['__exits__'], 'point': probe.get('point')}
+
+
+def _row(x, i, m):
+    """component i of a traced value that is a scalar (m = 1) or a vector of m rows"""
+    import numpy
+    a = numpy.asarray(x, dtype=object).reshape(-1)
+    if a.size == 1: return a[0]
+    if a.size != m: raise shim.TraceError('a traced state component has %d entries for %d rays' % (a.size, m))
+    return a[i]
+
+
+class _Sink:
+    """stands for the optimiser, the loss object and the progress bar: accepts every call and attribute"""
+    def __getattr__(s, k): return s
+    def __call__(s, *a, **k): return s
+    def __format__(s, spec): return 'sink'
+    def __iter__(s): return iter(())
+
+
+def torch_sphere_pass(m=1):
+    """PyTorch intersect_w_sphere, executed symbolically around ONE optimiser step: the prologue as it is (optimiser and
+    loss are sinks), the distance replaced by the symbol x, the loop run for one step (number_of_steps = 1, the optimiser
+    step does nothing), the distance replaced by the symbol y (its value after the last step), the epilogue up to the
+    assignment of the flag.  Roles from the data flow: the function returns (rays, normals, <distance>, <flag>).
+    Structural part: one `for` over range(number_of_steps) (possibly through tqdm), no early exit."""
+    import copy
     path, src, fn, body = _func(TORCH, 'intersect_w_sphere')
     loops = [st for st in body if isinstance(st, (ast.While, ast.For))]
     if len(loops) != 1 or not isinstance(loops[0], ast.For) or loops[0].orelse:
         raise shim.TraceError('intersect_w_sphere: expected exactly one for loop')
     f = loops[0]
-    if any(isinstance(n, (ast.Break, ast.Continue, ast.Return, ast.While)) for n in ast.walk(f)):
+    if any(isinstance(n, (ast.Break, ast.Continue, ast.Return, ast.While, ast.Raise)) for n in ast.walk(f)):
         raise shim.TraceError('intersect_w_sphere: the loop can leave early')
-    it = ast.unparse(f.iter)
-    if it != 'range(number_of_steps)':
-        defs = [st for st in body if isinstance(st, ast.Assign) and ast.unparse(st.targets[0]) == it]
-        if len(defs) != 1 or not ast.unparse(defs[0].value).replace(' ', '').startswith('tqdm(range(number_of_steps)'):
+    it = ast.unparse(f.iter).replace(' ', '')
+    if it != 'range(number_of_steps)' and not it.startswith('tqdm(range(number_of_steps)'):
+        defs = [st for st in body if isinstance(st, ast.Assign) and ast.unparse(st.targets[0]).replace(' ', '') == it]
+        if len(defs) != 1 or not ast.unparse(defs[0].value).replace(' ', '').startswith(('tqdm(range(number_of_steps)', 'range(number_of_steps)')):
             raise shim.TraceError('intersect_w_sphere: loop does not run over range(number_of_steps): %s' % it)
-    names = [ast.unparse(st.targets[0]) for st in f.body if isinstance(st, ast.Assign)]
-    if 'test' not in names:
-        raise shim.TraceError('intersect_w_sphere: `test` is not computed in the loop')
-    stm = {ast.unparse(st.targets[0]): st for st in f.body if isinstance(st, ast.Assign)}
-    after = [st for st in body[body.index(f) + 1:] if isinstance(st, ast.Assign) and ast.unparse(st.targets[0]) == 'check']
-    if len(after) != 1:
-        raise shim.TraceError('intersect_w_sphere: `check` is not assigned once after the loop')
+    ret = body[-1]
+    if not (isinstance(ret, ast.Return) and isinstance(ret.value, ast.Tuple) and len(ret.value.elts) == 4 and all(isinstance(e, ast.Name) for e in ret.value.elts[2:])):
+        raise shim.TraceError('intersect_w_sphere: no longer returns (rays, normals, distance, check)')
+    dist, flag = ret.value.elts[2].id, ret.value.elts[3].id
+    k = body.index(f)
+    ns = shim.base_namespace()
+    shim.load('odak/learn/raytracing/ray.py', ['propagate_ray', 'create_ray_from_two_points'], ns)
+    sink = _Sink()
+    ns['torch'].__dict__['nn'] = sink; ns['torch'].__dict__['optim'] = sink
+    ns['tqdm'] = lambda x, **kw: _Bar(x)
     params = {a.arg: ast.literal_eval(d) for a, d in zip(fn.args.args[-len(fn.args.defaults):], fn.args.defaults)}
-    return {'path': path, 'stmts': [stm['propagated_ray'], stm['test'], after[0]], 'defaults': params}
+    vals = {'ray': shim.sym('r', (m, 2, 3)), 'sphere': shim.sym('s', (1, 4)), 'learning_rate': shim.var('lr'), 'number_of_steps': 1, 'error_threshold': shim.var('thr')}
+    for a in fn.args.args:
+        if a.arg not in vals: raise shim.TraceError('intersect_w_sphere has an unknown parameter %s' % a.arg)
+        ns[a.arg] = vals[a.arg]
+    def ex(stmts):
+        mod = ast.Module(copy.deepcopy(stmts), []); ast.fix_missing_locations(mod)
+        exec(compile(mod, path, 'exec'), ns)
+    ex(body[:k])
+    if dist not in ns:
+        raise shim.TraceError('intersect_w_sphere: the returned distance is not created before the loop')
+    ns[dist] = shim.sym('x', (m,))
+    ex([f])
+    ns[dist] = shim.sym('y', (m,))
+    ns.pop(flag, None)
+    for st in body[k + 1:-1]:
+        ex([st])
+        if flag in ns: break
+    if flag not in ns:
+        raise shim.TraceError('intersect_w_sphere: the flag is not assigned after the loop')
+    return {'flag': ns[flag], 'defaults': params, 'roles': {'distance': dist, 'flag': flag}}
+
+
+class _Bar:
+    """tqdm(range(n)): iterable with a set_description sink"""
+    def __init__(s, it): s.it = it
+    def __iter__(s): return iter(s.it)
+    def set_description(s, *a, **k): pass
 
 
 def trace():
     g = Gen()
-    # ---------------- NumPy: secant step, guard, in-loop exits, kernels
-    ns = shim.base_namespace({'__and__': lambda x, y: shim.B.lift(x) & shim.B.lift(y), '__or__': lambda x, y: shim.B.lift(x) | shim.B.lift(y),
-                              '__not__': lambda x: ~shim.B.lift(x)})
-    shim.load('odak/tools/vector.py', ['point_to_ray_distance'], ns)
-    shim.load('odak/raytracing/ray.py', ['propagate_a_ray'], ns)
-    shim.load('odak/raytracing/primitives.py', ['sphere_function', 'cylinder_function'], ns)
-    shim.load(NUMPY, ['propagate_parametric_intersection_error', 'intersection_kernel_for_parametric_surfaces'], ns)
-    d0, d1, e0, e1 = (shim.var(x) for x in ('d0', 'd1', 'e0', 'e1'))
-    dist, err = ns['propagate_parametric_intersection_error']([d0, d1], [e0, e1])
+    # ---------------- NumPy: one symbolic pass of the loop of intersect_parametric, for one ray and for two rays
+    cut = ParametricCut()
+    r = cut.run(1)
     st = ['d0', 'd1', 'e0', 'e1']
-    g.add('g_sec_d0', st, dist[0]); g.add('g_sec_next', st, dist[1]); g.add('g_sec_e0', st, err[0]); g.add('g_sec_e1', st, err[1])
-    info = shape_parametric()
-    path = info['path']
-    guard = _SymBool().visit(ast.parse(info['guard'], mode='eval').body)
-    _fn('sec_guard', ['iter_no', 'error', 'target_error'], [ast.Return(guard)], ns, path)
-    g.add('g_sec_guard', ['iter_no', 'e1', 'tol'], shim.B.lift(ns['sec_guard'](shim.var('iter_no'), [shim.var('e0'), shim.var('e1')], shim.var('tol'))))
-    for k, t in enumerate(info['stops']):
-        _fn('sec_stop', ['iter_no', 'iter_no_limit', 'point'], [ast.Return(_SymBool().visit(ast.parse(t, mode='eval').body))], ns, path)
-        r = ns['sec_stop'](shim.var('iter_no'), shim.var('limit'), shim.sym('p', (1, 3)))
-        g.add('g_sec_stop_%d' % k, ['iter_no', 'limit'], shim.B.lift(r if not hasattr(r, 'shape') else r.reshape(-1)[0]))
+    g.add('g_sec_d0', st, _row(r['dist'][0], 0, 1)); g.add('g_sec_next', st, _row(r['dist'][1], 0, 1))
+    g.add('g_sec_e0', st, _row(r['err'][0], 0, 1)); g.add('g_sec_e1', st, _row(r['err'][1], 0, 1))
+    g.add('g_sec_count', ['iter_no'], r['count'])
+    g.add('g_sec_guard', ['iter_no', 'e1_old', 'tol'], r['guard'])
+    # every exit inside the loop must return (False, False); their conditions are emitted as ONE disjunction (whether the code
+    # writes two `if`s or one `if a or b` is immaterial): over R it is the counter test, the NaN test being `false`
+    stop = None
+    for cond, val in r['exits']:
+        if not (isinstance(val, tuple) and len(val) == 2 and val[0] is False and val[1] is False):
+            raise shim.TraceError('intersect_parametric: an exit inside the loop returns %r, not (False, False)' % (val,))
+        c = shim.B.lift(cond if not hasattr(cond, 'shape') else _row(cond, 0, 1))
+        stop = c if stop is None else (stop | c)
+    if stop is None:
+        raise shim.TraceError('intersect_parametric: no exit inside the loop (the counter test is gone)')
+    g.add('g_sec_stop', ['iter_no', 'limit'], stop)
+    if r['point'] is None or r['point'].shape != (1, 3):
+        raise shim.TraceError('intersect_parametric: the surface function is not evaluated at one point per ray')
+    for k in range(3):
+        g.add('g_kernel_point_%d' % k, RAY + ['d1'], r['point'][0, k])
+    r2 = cut.run(2)
+    st2 = [x + '_%d' % i for x in ('d0', 'd1', 'e0', 'e1') for i in range(2)]
+    R2 = shim.names('r', (2, 2, 3))
+    for i in range(2):
+        g.add('g_sec2_d0_%d' % i, st2, _row(r2['dist'][0], i, 2)); g.add('g_sec2_next_%d' % i, st2, _row(r2['dist'][1], i, 2))
+        g.add('g_sec2_e0_%d' % i, st2, _row(r2['err'][0], i, 2)); g.add('g_sec2_e1_%d' % i, st2, _row(r2['err'][1], i, 2))
+        for k in range(3):
+            g.add('g_kernel_point2_%d_%d' % (i, k), R2 + ['d1_0', 'd1_1'], r2['point'][i, k])
+    g.add('g_sec_guard2', ['iter_no', 'e1_old_0', 'e1_old_1', 'tol'], r2['guard'])
+    info = {'guard': cut.guard_src, 'roles': cut.roles, 'init': cut.init, 'defaults': cut.defaults, 'path': cut.path}
+    # the kernels on their own: sphere and cylinder functions along a ray (one ray; two rays)
+    ns = cut.namespace()
     ray = shim.sym('r', (1, 2, 3)); x = shim.var('x')
     e, p = ns['intersection_kernel_for_parametric_surfaces'](x, ray, shim.sym('s', (4,)), ns['sphere_function'])
     g.add('g_sphere_err', RAY + SPH + ['x'], e[0])
-    for k in range(3):
-        g.add('g_kernel_point_%d' % k, RAY + ['x'], p[0, k])
+    e2r, p2r = ns['intersection_kernel_for_parametric_surfaces'](shim.sym('x', (2,)), shim.sym('r', (2, 2, 3)), shim.sym('s', (4,)), ns['sphere_function'])
+    assert e2r.shape == (2,) and p2r.shape == (2, 3), (e2r.shape, p2r.shape)
+    for i in range(2):
+        g.add('g_sphere_err2_%d' % i, R2 + SPH + ['x_0', 'x_1'], e2r[i])
     e, p = ns['intersection_kernel_for_parametric_surfaces'](x, ray, shim.sym('c', (7,)), ns['cylinder_function'])
     ee = e if not hasattr(e, 'shape') else e.reshape(-1)[0]
     g.add('g_cyl_err', RAY + CYL + ['x'], ee)
-    # ---------------- PyTorch: residual and flag of intersect_w_sphere
-    ti = shape_torch_sphere()
-    ns2 = shim.base_namespace()
-    shim.load('odak/learn/raytracing/ray.py', ['propagate_ray'], ns2)
-    # `test` is computed from the distance BEFORE the last optimiser step, `check` after it: two symbols
-    rebind = ast.parse('distance = distance_after').body[0]
-    _fn('ts_flag', ['ray', 'sphere', 'distance', 'distance_after', 'error_threshold'], ti['stmts'][:2] + [rebind, ti['stmts'][2]] + [_ret(['test', 'check'])], ns2, ti['path'])
-    test, check = ns2['ts_flag'](shim.sym('r', (1, 2, 3)), shim.sym('s', (1, 4)), shim.sym('x', (1,)), shim.sym('y', (1,)), shim.var('thr'))
+    # ---------------- PyTorch: the flag of intersect_w_sphere as a function of the distance before (x) and after (y) the last step
+    ti = torch_sphere_pass(1)
     SP1 = shim.names('s', (1, 4))
-    g.add('g_ts_test', RAY + SP1 + ['x_0'], test[0]); g.add('g_ts_check', RAY + SP1 + ['x_0', 'y_0', 'thr'], shim.B.lift(check[0]))
-    info['torch_sphere_defaults'] = ti['defaults']
+    import numpy
+    fl = numpy.asarray(ti['flag'], dtype=object).reshape(-1)
+    if fl.size != 1:
+        raise shim.TraceError('intersect_w_sphere: the flag of one ray has %d entries' % fl.size)
+    g.add('g_ts_check', RAY + SP1 + ['x_0', 'y_0', 'thr'], shim.B.lift(fl[0]))
+    info['torch_sphere_defaults'] = ti['defaults']; info['torch_sphere_roles'] = ti['roles']
     return g, info
